@@ -249,7 +249,17 @@ class ObjWorld:
         def __init__(self: Any, tag: int) -> None:
             self.tag = tag
 
-        cls = type("K", (), {"__init__": __init__, "m0": mk(0), "m1": mk(1)})
+        def m2(self: Any, /, **tags: Any) -> Any:
+            # a method with a positional-only ``self`` and arbitrary keywords, called with a keyword named "self"
+            w.log.append(("body", self.tag, 2))
+            w.enter()
+            try:
+                tags["self"].m0()
+            finally:
+                w.depth -= 1
+            return 2
+
+        cls = type("K", (), {"__init__": __init__, "m0": mk(0), "m1": mk(1), "m2": m2})
         cls = icontract.invariant(inv, error=lambda: Tag("inv"))(cls)
         self.cls = cls
         self.objs = [cls(0), cls(1)]
@@ -281,6 +291,9 @@ def obj_reference(w: ObjWorld, first: Tuple[int, int], fuel: int) -> List[Tuple[
 
     def body(o: int, k: int, marked: Tuple[int, ...]) -> None:
         log.append(("body", o, k))
+        if k == 2:
+            call(1 - o, 0, marked)  # a.m2(self=b) calls b.m0()
+            return
         if state["fuel"] > 0:
             state["fuel"] -= 1
             for c in w.body_calls[k]:
@@ -295,7 +308,7 @@ _OBJ = []  # type: List[ObjWorld]
 
 
 def run_objs(o: int, k: int, fuel: int, i0: int, i1: int, c0: int, c1: int, c2: int, c3: int) -> Tuple[bool, bool]:
-    o, k, fuel = conc(o, 0, 1), conc(k, 0, 1), conc(fuel, 0, 3)
+    o, k, fuel = conc(o, 0, 1), conc(k, 0, 2), conc(fuel, 0, 3)
     inv_calls = [conc(i0, -1, 1), conc(i1, -1, 1)]
     bc = [conc(c, -1, 3) for c in (c0, c1, c2, c3)]
     with untraced():
@@ -313,7 +326,10 @@ def run_objs(o: int, k: int, fuel: int, i0: int, i1: int, c0: int, c1: int, c2: 
             w.depth = 0
             del w.log[:]
             try:
-                getattr(w.objs[o], "m%d" % k)()
+                if k == 2:
+                    w.objs[o].m2(self=w.objs[1 - o])
+                else:
+                    getattr(w.objs[o], "m%d" % k)()
                 out = "ret"
             except RecursionError:
                 out = "recursion-error"
@@ -392,10 +408,10 @@ def harnesses(tier: str) -> List[H]:
     # 2. objects
     OA = ["o", "k", "fuel", "i0", "i1", "c0", "c1", "c2", "c3"]
     if tier == "quick":
-        params = [I("o", 0, 1), I("k", 0, 1), I("fuel", 0, 2), I("i0", -1, 1), I("c0", -1, 3), I("c2", -1, 3)]
+        params = [I("o", 0, 1), I("k", 0, 2), I("fuel", 0, 2), I("i0", -1, 1), I("c0", -1, 3), I("c2", -1, 3)]
         d = {"i1": -1, "c1": -1, "c3": -1}
     else:
-        params = [I("o", 0, 1), I("k", 0, 1), I("fuel", 0, 3), I("i0", -1, 1), I("i1", -1, 1), I("c0", -1, 3), I("c1", -1, 3),
+        params = [I("o", 0, 1), I("k", 0, 2), I("fuel", 0, 3), I("i0", -1, 1), I("i1", -1, 1), I("c0", -1, 3), I("c1", -1, 3),
                   I("c2", -1, 3), I("c3", -1, 3)]
         d = {}
     out.append(H("objects", bind(run_objs, (), OA, d, [p.name for p in params]), params, tiers=(tier,),
